@@ -136,7 +136,7 @@ impl Property for C20 {
         let mut top_path = "/w/top.sv".to_string();
         // opaque conditions, identical for every call of the group
         let mut opaque: Vec<Fault> = vec![];
-        let cond = rng.below(8);
+        let cond = rng.below(9);
         let incl_files: Vec<String> = prog.files.iter().skip(1).cloned().collect();
         match cond {
             0 if !incl_files.is_empty() => opaque.push(Fault {
@@ -161,6 +161,7 @@ impl Property for C20 {
                         3 => t = t.replacen("endmodule", "  wire `NOT_DEFINED_ANYWHERE;\nendmodule", 1),
                         4 => t.push_str("// caf\u{e9} \u{4e16}\u{754c}\n"),
                         5 => t = t.replacen("module top;", "module top;\n  initial $display(\"h\u{e9}llo `TOPW\");", 1),
+                        6 => t = format!("{}{}", gen::comment_macro_program(&mut rng), t),
                         _ => {}
                     }
                     // byte-level variations of the top file that a reader might "normalise"
@@ -272,13 +273,55 @@ impl Property for C20 {
             sc.family = format!("{} sequence", sc.family);
         }
         sc.threads = vec![ops];
+        if rng.chance(1, 6) {
+            // the top file lives outside the working directory, with one of its headers next to it and
+            // nowhere else: no entry point may find that header (none of them searches the file's directory)
+            let new_top = "/proj/src/top.sv".to_string();
+            let arg = if rng.coin() { new_top.clone() } else { "../proj/src/top.sv".to_string() };
+            let top_text = sc.vfs.iter().find_map(|n| match n {
+                VNode::File { path, bytes: Bytes::Text(t) } if path == "/w/top.sv" => Some(t.clone()),
+                _ => None,
+            });
+            let sibling: Option<String> = top_text.as_ref().and_then(|t| {
+                sc.vfs.iter().map(|n| n.path().to_string()).find(|p| {
+                    p != "/w/top.sv" && p.rsplit('/').next().map(|name| t.contains(&format!("\"{}\"", name))).unwrap_or(false)
+                })
+            });
+            let ren = |p: &str| -> String {
+                if p == "/w/top.sv" {
+                    new_top.clone()
+                } else if Some(p.to_string()) == sibling {
+                    format!("/proj/src/{}", p.rsplit('/').next().unwrap_or("h.svh"))
+                } else {
+                    p.to_string()
+                }
+            };
+            for n in sc.vfs.iter_mut() {
+                match n {
+                    VNode::File { path, .. } | VNode::Dir { path } | VNode::Symlink { path, .. } => *path = ren(path),
+                }
+            }
+            for op in sc.threads[0].iter_mut() {
+                match op {
+                    Op::Call(c) => {
+                        c.path = arg.clone();
+                        for f in c.faults.iter_mut() {
+                            f.path = ren(&f.path);
+                        }
+                    }
+                    Op::Rewrite { path, .. } | Op::Remove { path } => *path = ren(path),
+                }
+            }
+            sc.family = format!("{} top-outside-cwd", sc.family);
+        }
         sc
     }
 
     fn valid(&self, sc: &Scenario) -> bool {
-        if sc.family.ends_with("sequence") {
+        if sc.family.contains("sequence") {
             // shrinking a sequence could break the pairing of groups: only whole scenarios are valid
-            return sc.threads.len() == 1 && sc.calls().count() >= 4 && sc.calls().all(|c| c.path == "top.sv" && c.text.is_none())
+            let p0 = sc.calls().next().map(|c| c.path.clone()).unwrap_or_default();
+            return sc.threads.len() == 1 && sc.calls().count() >= 4 && sc.calls().all(|c| c.path == p0 && c.text.is_none())
                 && sc.threads[0].iter().filter(|o| matches!(o, Op::Rewrite { .. })).count() >= 1
                 && {
                     let calls: Vec<&Call> = sc.calls().collect();
@@ -287,7 +330,9 @@ impl Property for C20 {
                 };
         }
         // "contents of path" must exist, be deliverable unchanged, and every call must name it
-        let top = sc.vfs.iter().any(|n| matches!(n, VNode::File { path, bytes: Bytes::Text(_) } if crate::vfs::normalise(&sc.cwd, path) == "/w/top.sv"));
+        let p0 = sc.calls().next().map(|c| c.path.clone()).unwrap_or_default();
+        let top_norm = crate::vfs::normalise(&sc.cwd, &p0);
+        let top = sc.vfs.iter().any(|n| matches!(n, VNode::File { path, bytes: Bytes::Text(_) } if crate::vfs::normalise(&sc.cwd, path) == top_norm));
         let calls: Vec<&Call> = sc.calls().collect();
         let same = calls.windows(2).all(|w| {
             let (a, b) = (w[0], w[1]);
@@ -306,8 +351,8 @@ impl Property for C20 {
         });
         let no_top_fault = calls
             .iter()
-            .all(|c| c.faults.iter().all(|f| f.kind.transparent() || f.path != "/w/top.sv"));
-        top && calls.len() >= 2 && same && opaque_same && no_top_fault && calls.iter().all(|c| c.path == "top.sv")
+            .all(|c| c.faults.iter().all(|f| f.kind.transparent() || f.path != top_norm));
+        top && calls.len() >= 2 && same && opaque_same && no_top_fault
     }
 
     fn check(&self, sc: &Scenario) -> RunReport {
@@ -317,7 +362,7 @@ impl Property for C20 {
             return rep;
         }
         let opts = ExecOpts::default();
-        if sc.family.ends_with("sequence") {
+        if sc.family.contains("sequence") {
             return self.check_sequence(sc);
         }
         let calls: Vec<&Call> = sc.calls().collect();
@@ -366,7 +411,7 @@ impl Property for C20 {
         let has_both = text_has("`include") && (text_has("//") || text_has("/*"));
         let transparent = rep.fired.get("short_read").cloned().unwrap_or(0) + rep.fired.get("eintr").cloned().unwrap_or(0);
         // the parse_* wrappers fix strip_comments = false, so a swapped pair shows when ignore_include is set
-        let flags_differ = if sc.family == "preprocess pair" {
+        let flags_differ = if sc.family.starts_with("preprocess pair") {
             c0.ignore_include != c0.strip_comments
         } else {
             c0.ignore_include
@@ -385,10 +430,15 @@ impl Property for C20 {
         if sc.expect.get("deep_chain").is_some() {
             rep.probe("deep_chain_groups", 1);
         }
-        match sc.family.as_str() {
-            "parse_lib quartet" => rep.probe("lib_groups", 1),
-            "preprocess pair" => rep.probe("pp_pair_groups", 1),
-            _ => rep.probe("sv_groups", 1),
+        if sc.family.contains("top-outside-cwd") {
+            rep.probe("top_outside_cwd_groups", 1);
+        }
+        if sc.family.starts_with("parse_lib quartet") {
+            rep.probe("lib_groups", 1);
+        } else if sc.family.starts_with("preprocess pair") {
+            rep.probe("pp_pair_groups", 1);
+        } else {
+            rep.probe("sv_groups", 1);
         }
         rep.nontrivial = (flags_differ && has_both) || transparent > 0;
         rep.distinct_key = sc.hash();
